@@ -106,6 +106,7 @@ PROPS['C15'] = Prop(
 )
 
 ENFORCE_SIDE = ['policy:Enforcer._enforce_scope', 'policy:Enforcer._map_context_attributes_into_creds']
+ENFORCE = ['policy:Enforcer.enforce', 'policy:Enforcer.authorize']
 
 PROPS['C03'] = Prop(
     functions=['policy:Rules.__missing__', '_checks:RuleCheck.__call__'],
@@ -137,14 +138,23 @@ PROPS['C06'] = Prop(
 )
 
 PROPS['C07'] = Prop(
-    functions=ENFORCE_SIDE,
+    functions=ENFORCE_SIDE + ENFORCE,
     bounded=[('bounded.enforce', 'c07')],
     level='other',
-    technique='bounded stand-in (the enforce() contract exists but is not discharged within the quick budget); helper contracts proved deductively',
-    explanation='BOUNDED: do_raise on/off agreement, custom exception construction, PolicyNotAuthorized naming, authorize '
-                'gate, with debug logging on and off and targets the dump cannot serialise. PROVED helpers: '
-                '_enforce_scope, _map_context_attributes_into_creds.',
-    assumptions=['bounded for the top-level clause'],
+    technique='contract-based deductive verification of Enforcer.enforce and authorize for rules given by name (own VC generator + z3, ~1900 obligations); bounded stand-in for rules given as check objects',
+    explanation='PROVED for every rule name, dict target, credentials (RequestContext, JSON-like mapping object, or '
+                'non-mapping), do_raise, exc, *args, **kwargs and ANY outcome of the debug block (logging on or off, '
+                'mask/dump raising or not): enforce loads once, normalises credentials, gates on the registered '
+                'scope types, evaluates the governing check exactly once with the caller\'s target/credentials and '
+                'the policy name, returns its result, never a falsy value under do_raise, raises exc(*args, **kwargs) '
+                'or PolicyNotAuthorized exactly on deny under do_raise, InvalidScope exactly on an enforced scope '
+                'mismatch, InvalidContextObject exactly for non-mapping credentials; authorize raises '
+                'PolicyNotRegistered for unregistered names evaluating nothing and is enforce otherwise. BOUNDED: the '
+                'same table natively, incl. rules passed as check objects.',
+    assumptions=COMMON_ASSUME + ['load_rules is used through an ASSUMED contract (keeps the enforcer invariant, raises nothing for parseable files, writes only the enforcer\'s own stores)',
+                                 'strutils.mask_dict_password / jsonutils.dumps stubs: return a value or raise; they do not write their argument',
+                                 'the caller\'s exc is a class whose call returns an exception instance ($ExcClass stub)',
+                                 'a rule passed as a check object is outside the proved contract (bounded only)'],
 )
 
 PROPS['C08'] = Prop(
